@@ -237,13 +237,58 @@ def _lrepr_bool(o: bool, **_) -> str:
 
 @lrepr.register(bytes)
 def _lrepr_bytes(o: bytes, **_) -> str:
-    v = repr(o)
-    return f'#b "{v[2:-1]}"'
+    chars = []
+    for byte in o:
+        if byte in (0x22, 0x5C):  # '"' and '\\'
+            chars.append("\\" + chr(byte))
+        elif 0x20 <= byte < 0x7F:
+            chars.append(chr(byte))
+        else:
+            chars.append(f"\\x{byte:02x}")
+    return f'#b "{"".join(chars)}"'
 
 
 @lrepr.register(type(None))
 def _lrepr_nil(_: None, **__) -> str:
     return "nil"
+
+
+# Escape sequences understood by the reader for string literals
+_STR_ESCAPES = {
+    '"': '\\"',
+    "\\": "\\\\",
+    "\a": "\\a",
+    "\b": "\\b",
+    "\f": "\\f",
+    "\n": "\\n",
+    "\r": "\\r",
+    "\t": "\\t",
+    "\v": "\\v",
+}
+_HEX_DIGITS = frozenset("0123456789abcdefABCDEF")
+
+
+def _escape_str(o: str) -> str:
+    """Escape the string `o` such that the reader will read back the same string.
+
+    Printable characters (including non-ASCII characters) are emitted as they are;
+    everything else is emitted as a `\\uXXXX` or `\\UXXXXXXXX` escape. The reader
+    consumes every hex digit following a unicode escape, so hex digits directly
+    following such an escape are escaped as well."""
+    out: list[str] = []
+    after_unicode_escape = False
+    for c in o:
+        if (esc := _STR_ESCAPES.get(c)) is not None:
+            out.append(esc)
+            after_unicode_escape = False
+        elif c.isprintable() and not (after_unicode_escape and c in _HEX_DIGITS):
+            out.append(c)
+            after_unicode_escape = False
+        else:
+            cp = ord(c)
+            out.append(f"\\u{cp:04x}" if cp <= 0xFFFF else f"\\U{cp:08x}")
+            after_unicode_escape = True
+    return "".join(out)
 
 
 @lrepr.register(str)
@@ -254,8 +299,7 @@ def _lrepr_str(
         return o
     if print_readably is None or print_readably is False:
         return o
-    escaped = o.encode("unicode_escape").replace(b'"', rb"\"").decode("utf-8")
-    return f'"{escaped}"'
+    return f'"{_escape_str(o)}"'
 
 
 @lrepr.register(list)
@@ -330,7 +374,8 @@ def _lrepr_path(o: Path, **_) -> str:
 def _lrepr_pattern(o: Pattern, print_readably: bool = PRINT_READABLY, **_) -> str:
     if not print_readably:
         return f'#"{o.pattern}"'
-    escaped = o.pattern.encode("unicode_escape").replace(b'"', rb"\"").decode("utf-8")
+    # The reader reads regex literals as raw strings: backslashes are kept as they are
+    escaped = o.pattern.replace('"', '\\"')
     return f'#"{escaped}"'
 
 
